@@ -23,6 +23,17 @@ Definition mem_prefix (p : option (list Z)) (l : list svc) : bool := existsb (fu
 Fixpoint find_by_prefix (p : option (list Z)) (l : list svc) : option svc :=
   match l with [] => None | s :: r => if oprefix_eqb p (sv_prefix s) then Some s else find_by_prefix p r end.
 
+(* the partner of a renamed service: the first old service with its request prefix whose name
+   vanished from the new layer, else the first old service with that prefix *)
+Fixpoint find_vanished (news : list svc) (p : option (list Z)) (l : list svc) : option svc :=
+  match l with
+  | [] => None
+  | s :: r => if oprefix_eqb p (sv_prefix s) && negb (mem_name (sv_name s) news) then Some s
+              else find_vanished news p r
+  end.
+Definition rename_partner (news : list svc) (p : option (list Z)) (olds : list svc) : option svc :=
+  match find_vanished news p olds with Some s => Some s | None => find_by_prefix p olds end.
+
 Record report := mkR { r_new : list Z; r_deleted : list Z; r_renamed : list (Z * Z); r_changed : list Z }.
 
 (* the inner loop over the services of the old layer, for one service of the new layer *)
@@ -42,7 +53,7 @@ Definition outer_step (news olds : list svc) (r : report) (s1 : svc) : report :=
   let r1 := if negb (mem_svc s1 olds) && negb (mem_prefix (sv_prefix s1) olds)
             then mkR (r_new r ++ [sv_name s1]) (r_deleted r) (r_renamed r) (r_changed r) else r in
   let r2 := if negb (mem_svc s1 olds) && negb (mem_name (sv_name s1) olds) && mem_prefix (sv_prefix s1) olds
-            then match find_by_prefix (sv_prefix s1) olds with
+            then match rename_partner news (sv_prefix s1) olds with
                  | Some s2 =>
                    let r' := mkR (r_new r1) (r_deleted r1) (r_renamed r1 ++ [(sv_name s1, sv_name s2)]) (r_changed r1) in
                    if negb (sv_body s1 =? sv_body s2)
